@@ -18,6 +18,7 @@ class ConnModel(object):
     def __init__(self, name):
         self.name = name
         self.alive = True
+        self.closing = False         # closing handshake begun: still registered with the server, reachable by nobody
         self.welcomed = False
         self.app = None
         self.side = None
